@@ -1475,6 +1475,12 @@ def build_unit(unit_path, repo=REPO):
                 # beginning with the anchor (the rest of the statement may change without losing the anchor)
                 a_, b_ = it.find_in_fn(args[0], args[1], int(args[2][1:]) if len(args) > 2 and args[2].startswith("#") else None)
                 j_, dep_ = b_, 0
+                # brackets the anchor itself leaves open
+                for ch_ in it.m[a_:b_]:
+                    if ch_ in "([{":
+                        dep_ += 1
+                    elif ch_ in ")]}":
+                        dep_ -= 1
                 if it.m[b_ - 1] == ";":
                     j_ = b_ - 1
                 while j_ < len(it.m):
